@@ -48,6 +48,7 @@ type actorRun struct {
 	txSeen int
 	log0   int64
 	err    error
+	made   *created
 	rec    any
 	done   bool
 	track  *opTrack
@@ -287,7 +288,7 @@ func (r *runner) doConc(st step) {
 					a.rec = rec
 				}
 			}()
-			a.err = r.call(o.Op, o.S)
+			a.made, a.err = r.call(o.Op, o.S)
 		})
 		// prologue: up to the first critical section
 		pos, err := sch.Step(a.name, "start", "go")
@@ -386,9 +387,15 @@ func (r *runner) doConc(st step) {
 			}
 		}
 	}
+	for _, a := range all {
+		if a.err == nil && a.made != nil {
+			r.checkCreated(a.run.subject, a.made, r.site(a.run.subject, post.Subjects[a.run.subject]))
+		}
+	}
 	for s := range touched {
 		ss := post.Subjects[s]
 		site := r.site(s, ss)
+		r.checkDIDSets(site)
 		perMethod := map[string]int{}
 		for _, d := range ss.DIDs {
 			perMethod[d.Method]++
